@@ -51,10 +51,10 @@ LEVEL_NOTE = "trusted: the harness's record builder and field dump, the own Pyth
 
 def runs(tier, seed):
     if tier == "thorough":
-        return [Run("c47_rt", cases=150000, params={"mut": 6}, timeout=3600, name="roundtrip"),
-                Run("c47_fin", cases=60000, params={"maxdepth": 3}, timeout=3600, name="finalize")]
-    return [Run("c47_rt", cases=3200, params={"mut": 4}, timeout=900, name="roundtrip"),
-            Run("c47_fin", cases=1600, params={"maxdepth": 3}, timeout=900, name="finalize")]
+        return [Run("c47_rt", cases=40000, params={"mut": 6}, timeout=3600, name="roundtrip"),
+                Run("c47_fin", cases=20000, params={"maxdepth": 3}, timeout=3600, name="finalize")]
+    return [Run("c47_rt", cases=2000, params={"mut": 4}, timeout=900, name="roundtrip"),
+            Run("c47_fin", cases=1000, params={"maxdepth": 3}, timeout=900, name="finalize")]
 
 
 def _cs(f):
